@@ -4,6 +4,7 @@ package middleware
 
 import (
 	"context"
+	"errors"
 	"strconv"
 	"time"
 
@@ -65,12 +66,15 @@ func c12Run(maxMaxRetries int, symbolicIntervals bool) {
 	calls := 0
 	var stamps []time.Time
 	var lastOut []*message.Message
+	var lastErr error
+	attemptErrs := []error{errors.New("failure a"), errors.New("failure b"), errors.New("failure c")}
 	h := func(m *message.Message) ([]*message.Message, error) {
 		calls++
 		stamps = append(stamps, time.Now())
 		lastOut = []*message.Message{message.NewMessage("o"+strconv.Itoa(calls), nil)}
 		if calls <= fails {
-			return lastOut, errScripted
+			lastErr = attemptErrs[calls%len(attemptErrs)]
+			return lastOut, lastErr
 		}
 		return lastOut, nil
 	}
@@ -83,7 +87,7 @@ func c12Run(maxMaxRetries int, symbolicIntervals bool) {
 		vrt.Assert(calls == succeededAt, "a nil error is returned only when an attempt succeeded, and no call follows the first success")
 		vrt.Assert(sameMsgs(out, lastOut), "the first successful attempt's outputs are returned")
 	} else {
-		vrt.Assert(err == errScripted, "the last error is returned unchanged")
+		vrt.Assert(err == lastErr, "the last attempt's error is returned unchanged")
 		vrt.Assert(calls <= fails, "a failure is reported only if every attempt made failed")
 	}
 	vrt.Assert(calls >= 1 && calls-1 <= maxRetries, "the handler is re-invoked at most MaxRetries times")
@@ -168,3 +172,41 @@ func HarnessC12MaxElapsed() {
 	vrt.Assert(msg.Context().Err() == nil, "Retry leaves the message context usable")
 }
 
+
+// HarnessC12Concurrent: two messages retried concurrently through the same Retry middleware instance do not
+// disturb each other's back-off: every pause is still at least the configured interval for that message.
+func HarnessC12Concurrent() {
+	models.RandConst = true
+	r := Retry{MaxRetries: 2, InitialInterval: 10 * time.Millisecond, MaxInterval: 40 * time.Millisecond, Multiplier: 2}
+	type run struct {
+		calls  int
+		stamps []time.Time
+	}
+	runs := []*run{{}, {}}
+	fails := []int{2, 1}
+	mw := r.Middleware(func(m *message.Message) ([]*message.Message, error) {
+		i := 0
+		if m.UUID == "b" {
+			i = 1
+		}
+		runs[i].calls++
+		runs[i].stamps = append(runs[i].stamps, time.Now())
+		if runs[i].calls <= fails[i] {
+			return nil, errScripted
+		}
+		return nil, nil
+	})
+	done := make(chan struct{}, 2)
+	go func() { mw(message.NewMessage("a", nil)); done <- struct{}{} }()
+	go func() { mw(message.NewMessage("b", nil)); done <- struct{}{} }()
+	<-done
+	<-done
+	for i, rn := range runs {
+		vrt.Assert(rn.calls == fails[i]+1, "each message gets its own attempts")
+		want := 10 * time.Millisecond
+		for k := 1; k < len(rn.stamps); k++ {
+			vrt.Assert(rn.stamps[k].Sub(rn.stamps[k-1]) >= want, "at least the message's own back-off interval passes before each retry")
+			want *= 2
+		}
+	}
+}
